@@ -406,7 +406,7 @@ def run(ctx):
                         "coerce may-Some pairs": sorted("%s,%s" % k for k, v in T.coerce.items() if "Some" in v or "?" in v)[:60],
                         "eq may be true": sorted("%s,%s" % k for k, v in eq_true.items() if v)})
     # positive control for the zero-count rule V5
-    sub5 = type(ctx)(ctx.prop, ctx.tier, ctx.repo)
+    sub5 = ctx.fresh()
     cprog = ctx.controls
     check_unknown_lengths(sub5, cprog, [cprog.fn("mjsa_controls::c07::differ")], "control:")
     ctx.control("C07.V5", any(not o[2] for o in sub5.obligations))
